@@ -41,6 +41,7 @@ cls(
         # C06.serial: a new request can only be parsed (client IDLE) when no stream is attached
         ("C06.serial", "implies(isinstance(self.connection, h11.Connection) and self.connection.their_state is h11.IDLE, self.stream is None)", "C06,C03"),
         ("C18.ka.count", "self.keep_alive_requests >= 0", "C18"),
+        ("H11.inv.can_read-clearable", "not self.can_read.g_sticky", "C06"),
     ],
     rely=[("H11.rely.requests-monotone", "self.keep_alive_requests >= old(self.keep_alive_requests)", "C06,C18")],
     # only the reader counts requests and swaps the connection object (WebSocket upgrade)
